@@ -173,7 +173,7 @@ M("c14-reflect-not-symmetric", "C14", ST, '    padded_ar = np.pad(array, pad_siz
 M("c14-detrend-int-overflow", "C14", K, "    x_sq_sum = x_sum * (2 * m - 1) / 3", "    x_sq_sum = m * (m - 1) * (2 * m - 1) / 6", "original defect repaired by ba8ec2f: wraps for m > 1.66e6")
 M("c14-flat-dims", "C14", K, "            pos = dim2 * i * factor1 + j * factor2", "            pos = dim1 * i * factor1 + j * factor2", "row stride uses dim1: wrong for non-square shapes")
 M("c14-2d-remainder", "C14", ST, "        array[: new_dim1 * factor1, : new_dim2 * factor2].reshape(new_shape),", "        array[dim1 - new_dim1 * factor1 :, : new_dim2 * factor2].reshape(new_shape),", "2-D decimation drops the leading instead of the trailing remainder rows")
-M("c14-detrend-xsq", "C14", K, "    x_sq_sum = m * (m - 1) * (2 * m - 1) / 6", "    x_sq_sum = m * (m - 1) * (2 * m + 1) / 6")
+M("c14-detrend-xsq", "C14", K, "    x_sq_sum = x_sum * (2 * m - 1) / 3", "    x_sq_sum = x_sum * (2 * m + 1) / 3")
 M("c14-median-1d-group", "C14", ST, "        return np.median(array[:nsamps_new].reshape(-1, factor), axis=1)", "        return np.median(array[array.size - nsamps_new :].reshape(-1, factor), axis=1)")
 M("c14-deredden-window", "C14", T, "        window_bins = round(window / self.header.tsamp)", "        window_bins = int(window / self.header.tsamp)", "window truncated instead of rounded (differs when window/tsamp evaluates just below an integer)")
 
